@@ -304,8 +304,8 @@ def evaluate(cases, tag):
                                                               copt(h["closed"] if h["closed"] >= 0 else None, cN))
             slack = SLACK_US + sc["delay_ms"] * 1000   # a sleeping consumer sees the close when it wakes up
             rows.append("(%d, accepts %d %d %d H%d X%d, lost %d H%d, invented %d H%d, shutdown_ok %d %d X%d, "
-                        "(map evp (fst (table_diff S%d R%d)), map evp (snd (table_diff S%d R%d))), map expects S%d, map budget S%d)"
-                        % (i, W_US, WSHUT_US, slack, i, i, W_US, i, W_US, i, WSHUT_US, slack, i, i, i, i, i, i, i))
+                        "(map evp (fst (table_diff S%d R%d)), map evp (snd (table_diff S%d R%d))), map expects S%d, map budget S%d, obligations %d H%d)"
+                        % (i, W_US, WSHUT_US, slack, i, i, W_US, i, W_US, i, WSHUT_US, slack, i, i, i, i, i, i, i, W_US, i))
         body += "Definition V := Eval vm_compute in %s.\nPrint V.\n" % clist(rows)
         items.append(("c19_%s_%d" % (tag, k), body))
     verdicts = {}
@@ -313,11 +313,11 @@ def evaluate(cases, tag):
         d = extract_defs(out)
         if "V" not in d or isinstance(d["V"], tuple):
             raise CheckError("cannot read V from coqc output: %r" % (d.get("V"),))
-        for (i, acc, lost, inv, shut, tdiff, exp, bud) in d["V"]:
+        for (i, acc, lost, inv, shut, tdiff, exp, bud, obl) in d["V"]:
             if acc != (not lost and not inv and shut):
                 raise CheckError("accepts disagrees with its parts on history %d" % i)
             verdicts[i] = {"accepts": acc, "lost": lost, "invented": inv, "shutdown_ok": shut, "table_missing": tdiff[0],
-                           "table_extra": tdiff[1], "expects": exp, "budget": bud}
+                           "table_extra": tdiff[1], "expects": exp, "budget": bud, "obligated": obl}
     if len(verdicts) != len(cases):
         raise CheckError("monitor evaluated %d of %d histories" % (len(verdicts), len(cases)))
     return [verdicts[i] for i in range(len(cases))]
@@ -447,8 +447,7 @@ def judge(run_, binary, scenarios, tag, stats, seen_classes, shrink=True):
         stats["histories"] += 1
         stats["steps"] += len(h["steps"])
         stats["notes"] += len(h["notes"])
-        obligated = [j for j, rec in enumerate(h["steps"])
-                     if v["expects"][j] and rec["done"] + sc["delay_ms"] * 1000 + W_US <= h["read_until"]]
+        obligated = [j for j, o in enumerate(v["obligated"]) if o]
         stats["obligations"] += len(obligated)
         stats["silent_steps"] += sum(1 for e in v["expects"] if not e)
         for j in obligated:
@@ -549,6 +548,9 @@ ASSUMPTIONS = [
     "returned at most %d ms (+ backlog x consumer sleep) before it (time); after cancel no goroutine with monitor.go frames within %d ms "
     "and the stream observed closed within %d ms plus the consumer's sleep; obligations whose deadline lies after the consumer stopped reading are not judged"
     % (W_US // 1000, W_US // 1000, WSHUT_US // 1000, (WSHUT_US + SLACK_US) // 1000),
+    "fsnotify discards every event other than Remove/Rename whose file no longer exists when its reader gets to it (Event.ignoreLinux), "
+    "which with a late consumer may be much later: a modification of a file that a later operation of the script renames away or removes "
+    "carries no obligation (Run/WatcherRun.v sure/obligated), and its events are optional in the table comparison",
     "a modification by open(O_TRUNC)+write may arrive as one or two Write events: the property demands >= 1 and <= 2 notifications for it, "
     "exactly 1 for single-event modifications (append, overwrite, truncate) when isolated",
     "Go's goroutine scheduler, unbuffered channels, select and context cancellation are modelled (DESIGN 3.7): the theorems hold for the "
